@@ -110,7 +110,7 @@ var props = map[string]propCfg{
 	"C14": {
 		level: "exploration",
 		rule:  "mcrew: 1-4 recorder machines, 1-2 client tasks x 1-3 messages (targets absent, id, unknown id, timers, http, ws; nested emission instructions, timers that deliver messages later), counting oracle over the recorders' logs at quiescence and over the Emitted channel; sio: a crew of 1-5 recorder machines, 1-4 submitted messages with unique ids, routing targets (absent, id, '*', unknown, service names, lists with unknown, repeated, non-string and service members) and nested emission instructions (hop budget 2); the order in which machines are presented a message comes from the map-order seam; counting oracle over the recorders' logs and Result.Emitted; distinct = distinct (crew size, processed/batch counts) shapes",
-		parts: []part{{name: "sio", engine: "sio", race: false, quick: 10000, thorough: 150000}, {name: "sio-loop", engine: "sio", race: true, quick: 600, thorough: 15000}, {name: "mcrew", engine: "mcrew", race: true, quick: 800, thorough: 15000}},
+		parts: []part{{name: "sio", engine: "sio", race: false, quick: 10000, thorough: 150000}, {name: "sio-loop", engine: "sio", race: true, quick: 600, thorough: 15000}, {name: "captain-list", engine: "sio", race: false, quick: 3000, thorough: 40000}, {name: "mcrew", engine: "mcrew", race: true, quick: 800, thorough: 15000}},
 		comps: []string{"real: sio.Crew ProcessMsg/RunMachines/toMachines, core.Walk, ecmascript interpreter (instrumented copies)", "real: cmd/mcrew Service.Process/Route/toTimers/Timers on a real bbolt store (tmpfs) with recorder machines loaded from a spec file; client tasks and the service's asynchronous re-processing goroutines under the serial scheduler with the simulated clock", "reference: router models (documented routing rules) in the harnesses", "simulated: order in which machines are presented a message (map-order seam), goroutine scheduling, clock", "not simulated: real HTTP egress, WebSocket peers (messages to 'http'/'ws' are only checked to reach no machine)"},
 	},
 	"C15": {
